@@ -511,6 +511,12 @@ func TestC19Pairs(t *testing.T) {
 			comps = append(comps, []pipeSpec{{ET: "A", Fmt: f, Sink: k}, {ET: "A", Filters: []string{"filter"}, Fmt: f, Sink: k, Share: 1}})
 		}
 	}
+	// fixed compositions around sinks that share a file or cannot open
+	comps = append(comps,
+		[]pipeSpec{{ET: "A", Fmt: "json", Sink: "filebroken"}, {ET: "A", Fmt: "json", Sink: "filebroken", Share: 1}, {ET: "A", Fmt: "json", Sink: "file", Share: 2}},
+		[]pipeSpec{{ET: "A", Fmt: "json", Sink: "filetwin"}, {ET: "A", Filters: []string{"filter"}, Fmt: "json", Sink: "filetwin", Share: 1}},
+		[]pipeSpec{{ET: "A", Filters: []string{"encrypt"}, Fmt: "json", Sink: "filetwin"}, {ET: "A", Filters: []string{"encrypt"}, Fmt: "json", Sink: "filetwin", Share: 1}, {ET: "A", Fmt: "ce-json", Sink: "filebroken", Share: 2}, {ET: "A", Fmt: "ce-json", Sink: "filebroken", Share: 3}},
+	)
 	firsts := append(append([]string{}, filterKinds...), fmtKinds...)
 	for _, a := range firsts {
 		for _, b := range firsts {
